@@ -1,5 +1,6 @@
 import Acra.Model.NPD
 import Acra.Lemmas.ReviewC08Records
+import Acra.Props.C09.NPD
 namespace Acra.Props.C08
 open Acra.Py Acra.Model.NPD Acra.Gen.NPD
 
@@ -226,5 +227,59 @@ example : (Seg.unpack (Seg.fresh .mil1553) (wNPD.drop 20)).2 = .ok (wNPD.drop 36
 /-- a declared segment length of 0 (or anything below 8) still advances by 8: the setter rewrote it -/
 example : decSeg .base [0, 0, 0, 1, 0, 0, 2, 3, 9, 9, 9, 9] =
     .ok ({ Seg.fresh .base with timedelta := 1, segmentlen := 8, errorcode := 2, flags := 3 }, 8) := by rfl
+
+/-! ### packet-level outcome list (review B4) -/
+
+/-- `NPD.unpack` returns, or raises `struct.error`, or a bare `Exception` — nothing else; and each kind is
+    characterised on the bytes: `struct.error` iff the 20-byte header is incomplete; `Exception` iff the header is
+    complete and the declared total length (32-bit words) is not the real one, or the declarative segment walk of
+    `Acra.Lemmas.NPD.SegsReject` meets an incomplete segment header / typed header (the segment decoders'
+    `struct.error` re-raised by `except Exception as e: raise Exception(e)`); a value otherwise
+    (`Acra.Props.C09.NPD_accepts_iff_fits`). -/
+theorem NPD_unpack_outcomes (t : State) (buf : Bytes) :
+    ((unpack t buf).2 = .ok () ∨ (unpack t buf).2 = .error .struct ∨ (unpack t buf).2 = .error .generic) ∧
+    ((unpack t buf).2 = .error .struct ↔ buf.length < 20) ∧
+    ((unpack t buf).2 = .error .generic ↔ 20 ≤ buf.length ∧ (Acra.Props.C09.declaredWords buf * 4 ≠ buf.length ∨
+      Acra.Lemmas.NPD.SegsReject (kindOf (Acra.Props.C09.declaredType buf))
+        (buf.drop (Acra.Props.C09.declaredHdrlen buf * 4)))) :=
+  ⟨(Acra.Props.C09.NPD_rejects_iff t buf).2.2, (Acra.Props.C09.NPD_rejects_iff t buf).1,
+   (Acra.Props.C09.NPD_rejects_iff t buf).2.1⟩
+
+/-- the segment decoders raise nothing but `struct.error` (which is what the packet decoder wraps) -/
+theorem Segment_unpack_outcomes (k : Kind) (buf : Bytes) :
+    (∃ g r, Seg.unpack (Seg.fresh k) buf = (g, .ok r)) ∨ (Seg.unpack (Seg.fresh k) buf).2 = .error .struct := by
+  cases hd : decSeg k buf with
+  | ok r =>
+    left
+    simp only [decSeg] at hd
+    split at hd
+    · rename_i g r' hg; exact ⟨g, r', hg⟩
+    · cases hd
+  | error e =>
+    right
+    have he := Acra.Lemmas.NPD.decSeg_error_struct k buf e hd
+    subst he
+    simp only [decSeg] at hd
+    split at hd
+    · cases hd
+    · rename_i g e' hg
+      rw [hg]
+      simp only [Except.error.injEq] at hd
+      simp [hd]
+
+/-- every outcome is reachable: `wNPD` accepted; 19 bytes → `struct.error`; length word off by one → `Exception`;
+    total length right but the last segment header cut (4 stray bytes, 13 words) → `Exception` from the segment walk;
+    an ACQ packet (data type 0xA1) whose segment is too short for the typed header → `Exception` -/
+example : (unpack fresh wNPD).2 = .ok () := by rfl
+example : (unpack fresh (wNPD.take 19)).2 = .error .struct := by rfl
+example : (unpack fresh (wNPD.set 3 13)).2 = .error .generic := by rfl
+example : (unpack fresh ((wNPD.set 3 13) ++ [0, 0, 0, 1])).2 = .error .generic ∧
+    Acra.Props.C09.declaredWords ((wNPD.set 3 13) ++ [0, 0, 0, 1]) * 4 = ((wNPD.set 3 13) ++ [0, 0, 0, 1]).length :=
+  ⟨by rfl, by decide⟩
+example : (unpack fresh ([53, 161, 0, 8, 0, 0, 0, 0, 0, 0, 0, 0, 235, 0, 0, 1, 0, 0, 0, 7] ++
+    [0, 0, 0, 1, 0, 10, 0, 0, 1, 2, 255, 255])).2 = .error .generic := by rfl
+example : (unpack fresh ([53, 161, 0, 8, 0, 0, 0, 0, 0, 0, 0, 0, 235, 0, 0, 1, 0, 0, 0, 7] ++
+    [0, 0, 0, 1, 0, 12, 0, 0, 1, 2, 3, 4])).2 = .ok () := by rfl
+example : (Seg.unpack (Seg.fresh .acq) [0, 0, 0, 1, 0, 10, 0, 0, 1, 2, 255, 255]).2 = .error .struct := by rfl
 
 end Acra.Props.C08
